@@ -113,6 +113,13 @@ CLAIMED = {
         "Prefix / no-gap / no-repeat delivery of bytes and liveness are declined (relations over runtime byte strings and schedules). The pairing table is part of the rule; a new handler or a changed consumption makes the check fail until the table is re-confirmed.",
         "DESIGN.md#c01",
     ),
+    "C18": (
+        "other",
+        "CFG dominance (retire before consume; filter before choice; violation tests before removal), writer / mutator enumeration for the peer-ID list, the seen-sequence set, retire-prior-to and the issued-ID list, guard extraction with canonical atoms for every limit and eligibility test, post-dominance of replenishment, and the consume / re-arm pairing machinery of C01 restricted to the RETIRE_CONNECTION_ID and NEW_CONNECTION_ID frames",
+        "Decides on all paths that an abandoned peer ID is always queued for retirement (and the frame re-queued on loss, consumed only after it was written), that stored and issued IDs are bounded by the advertised / the peer's limits, that only IDs at or above a monotone retire-prior-to and never seen before are accepted and used, that a replacement is taken only when one exists, and that issued IDs stay accepted until the peer retires them through a handler that rejects unknown and in-use IDs.",
+        "The wire-level history property (never addressing a retired ID) is declined as such; the structural conditions above are its necessary conditions.",
+        "DESIGN.md#c18",
+    ),
 }
 
 NOT_APPLICABLE = {
